@@ -383,7 +383,8 @@ PROPS = {
     'C08': alg(simple_jobs('move', 1600), mc=words_mc('MC_MzdWords_c08_w3')),
     'C13': alg(simple_jobs('rowops', 1200), mc=words_mc('MC_MzdWords_c13_w3')),
     'C17': alg(simple_jobs('obs', 1600), mc=words_mc('MC_MzdWords_c17_w2')),
-    'C01': dict(level='model_checking', reasons=ALG_REASONS, jobs=c01_jobs, mc=gf2_mc,
+    'C01': dict(level='model_checking', reasons=ALG_REASONS, jobs=c01_jobs,
+                mc=lambda tier: gf2_mc(tier) + [mcjob('MC_Strassen', workers=12), mcjob('MC_Strassen', 'MC_Strassen_wit_f01', workers=4, witness=True)],
                 assumptions=['TLC evaluates GF2.tla operators correctly (checked against declarative twins by MC_GF2)',
                              'the harness logs the raw memory of operands truthfully (memcmp snapshots)',
                              'contents at 64-bit word size are sampled (structured families + seeded random), not exhaustive']),
